@@ -147,6 +147,8 @@ Definition check_case (sel : N) (cs : list int * (list (list int) * list (list i
         let expected := flat_map own_delivery parts in
         if want 13 && pan then mkV 240 0
         else if want 12 && negb (dl_equiv expected obs_d) then mkV 200 0
+        (* C16: a packet carrying the receiver's own label (1..255 bytes) must get through *)
+        else if want 16 && negb (match plabel (w_s w) with [] => true | _ => false end) && negb (dl_equiv expected obs_d) then mkV 221 0
         else if want 15 && negb sealed_ok then mkV 210 0
         else if want 15 && leak then mkV 211 0
         else
